@@ -71,7 +71,32 @@ fn run_case(case: &Value, out: &mut dyn FnMut(Value)) {
         HeaderValue::from_str(&format!("multipart/form-data; boundary={boundary}")).unwrap(),
     );
     let src = Rc::new(RefCell::new(Src::default()));
-    let mut mp = Multipart::new(&headers, ChunkStream(src.clone()));
+    // buffer-limit cases go through the extractor, the only public way to configure the parser's buffer limit
+    let limit = case.get("limit").and_then(|l| l.as_u64()).map(|l| l as usize);
+    let live0 = crate::alloc::live();
+    crate::alloc::reset_peak();
+    let mut mp = match limit {
+        None => Multipart::new(&headers, ChunkStream(src.clone())),
+        Some(l) => {
+            use actix_web::FromRequest as _;
+            let req = actix_web::test::TestRequest::default()
+                .insert_header(("content-type", format!("multipart/form-data; boundary={boundary}")))
+                .app_data(actix_multipart::MultipartConfig::default().buffer_limit(l))
+                .to_http_request();
+            let boxed: Pin<Box<dyn Stream<Item = Result<Bytes, actix_web::error::PayloadError>>>> = Box::pin(ChunkStream(src.clone()));
+            let mut pl = actix_web::dev::Payload::Stream { payload: boxed };
+            Multipart::from_request(&req, &mut pl).into_inner().expect("multipart extractor")
+        }
+    };
+    let mut max_chunk = 0usize;
+    let mut got_len = 0usize;
+    let mut got_ok = true;
+    // reports what the parser held at most (heap high-water mark above the level before it was created)
+    let held = |out: &mut dyn FnMut(Value), max_chunk: usize| {
+        if let Some(l) = limit {
+            out(json!({"ev":"Held","peak": crate::alloc::peak().saturating_sub(live0),"limit": l,"chunk": max_chunk}));
+        }
+    };
     let fields = case["fields"].as_array().unwrap();
     let cw = Arc::new(CountWaker(AtomicUsize::new(1)));
     let waker = Waker::from(cw.clone());
@@ -89,21 +114,37 @@ fn run_case(case: &Value, out: &mut dyn FnMut(Value)) {
                 polls += 1;
                 if polls > 200_000 {
                     out(json!({"ev":"Stall","why":"poll budget exhausted"}));
+                    held(out, max_chunk);
                     return;
                 }
                 let mut cx = Context::from_waker(&waker);
                 if let Some(f) = cur.as_mut() {
                     match Pin::new(f).poll_next(&mut cx) {
                         Poll::Pending => break,
-                        Poll::Ready(Some(Ok(b))) => got.extend_from_slice(&b),
+                        Poll::Ready(Some(Ok(b))) => {
+                            if limit.is_some() {
+                                // long contents are one repeated byte pattern: compare on the fly, keep nothing
+                                let want = fields.get(idx - 1).map(|f| f["content"].as_str().unwrap().as_bytes()).unwrap_or(b"");
+                                got_ok &= got_len + b.len() <= want.len() && &want[got_len..got_len + b.len()] == b.as_ref();
+                                got_len += b.len();
+                            } else {
+                                got.extend_from_slice(&b)
+                            }
+                        }
                         Poll::Ready(Some(Err(e))) => {
                             out(json!({"ev":"Err","kind":format!("{e:?}").split(|c: char| !c.is_alphanumeric()).next().unwrap_or(""),"in":"field"}));
                             finished = true;
                             break;
                         }
                         Poll::Ready(None) => {
-                            let want = fields.get(idx - 1).map(|f| latin1(f["content"].as_str().unwrap())).unwrap_or_default();
-                            out(json!({"ev":"FieldEnd","n":got.len(),"ok":got == want}));
+                            if limit.is_some() {
+                                out(json!({"ev":"FieldEnd","n":got_len,"ok":got_ok}));
+                                got_len = 0;
+                                got_ok = true;
+                            } else {
+                                let want = fields.get(idx - 1).map(|f| latin1(f["content"].as_str().unwrap())).unwrap_or_default();
+                                out(json!({"ev":"FieldEnd","n":got.len(),"ok":got == want}));
+                            }
                             cur = None;
                             got.clear();
                         }
@@ -132,12 +173,14 @@ fn run_case(case: &Value, out: &mut dyn FnMut(Value)) {
             }
         }
         if finished {
+            held(out, max_chunk);
             return;
         }
         // environment: next segment, then end of stream
         let mut s = src.borrow_mut();
         if pos < body.len() {
             let n = segs.pop_front().unwrap_or(body.len() - pos).clamp(1, body.len() - pos);
+            max_chunk = max_chunk.max(n);
             s.q.push_back(Bytes::copy_from_slice(&body[pos..pos + n]));
             pos += n;
         } else if !s.eof {
@@ -145,6 +188,7 @@ fn run_case(case: &Value, out: &mut dyn FnMut(Value)) {
         } else {
             drop(s);
             out(json!({"ev":"Stall","why":"pending after end of stream without a wake-up"}));
+            held(out, max_chunk);
             return;
         }
         if let Some(w) = s.waker.take() {
